@@ -1,7 +1,7 @@
 (* C14/Witness.v — concrete witnesses (non-vacuity examples and refutations), closed by vm_compute. *)
 From Coq Require Import List NArith ZArith Bool Arith Lia.
 Import ListNotations.
-Require Import Base.Wire Base.PyStr C14.Model C14.Lemmas C14.Dispatch.
+Require Import Base.Wire Base.PyStr C14.Model C14.Lemmas C14.Dispatch C14.Trace.
 Local Open Scope N_scope.
 
 (* every command replies the empty string and is logged *)
@@ -58,3 +58,69 @@ Example disabled_example :
   memG (canon [97]) (d_all (e_dis E_dis)) = true /\
   findCallbacksForArgs E_dis [[97]] = ([], []) /\ findCallbacksForArgs E_dis [[97; 108]; [97]] = ([], []).
 Proof. repeat split; try (vm_compute; reflexivity); try (vm_compute; lia); try (vm_compute; auto). Qed.
+
+(* ---- the boundary of the domain: STACK_SAFE_SUBS + 1 sibling sub-commands on a stack that holds exactly
+   STACK_SAFE_SUBS + 1 proxies (finding C14.F22) ---- *)
+Definition K_edge := Config 10 (S gen.T14.STACK_SAFE_SUBS) (SStop OStall).
+Definition t_wide (n : nat) : list arg := AStr [97] :: repeat (ASub [AStr [97]]) n.       (* a [a] [a] ... *)
+
+Definition done_with (s : status) (n : nat) (o : outcome) : bool :=
+  match s, o with
+  | Done l OAbandoned, OAbandoned => Nat.eqb (length l) n
+  | Done l (OReply []), OReply [] => Nat.eqb (length l) n
+  | _, _ => false
+  end.
+
+Lemma eval_refuted_edge :
+  stack_holds_domain K_edge /\
+  in_domain (t_wide (S gen.T14.STACK_SAFE_SUBS)) = false /\
+  done_with (machine final0 K_edge (t_wide (S gen.T14.STACK_SAFE_SUBS))) gen.T14.STACK_SAFE_SUBS OAbandoned = true /\
+  snd (eval_spec final0 K_edge (t_wide (S gen.T14.STACK_SAFE_SUBS))) = OReply [].
+Proof.
+  split; [unfold stack_holds_domain; vm_compute; lia|].
+  repeat split; vm_compute; reflexivity.
+Qed.
+
+Definition outcome_of (s : status) : outcome := match s with Done _ o => o | Running _ => OStall end.
+Definition t_edge : list arg := t_wide (S gen.T14.STACK_SAFE_SUBS).
+
+Lemma eval_refuted_edge_neq :
+  forall log, machine final0 K_edge t_edge <> Done log (snd (eval_spec final0 K_edge t_edge)).
+Proof.
+  intros log H.
+  assert (E1 : outcome_of (machine final0 K_edge t_edge) = OAbandoned) by (vm_compute; reflexivity).
+  assert (E2 : snd (eval_spec final0 K_edge t_edge) = OReply []) by (vm_compute; reflexivity).
+  remember (machine final0 K_edge t_edge) as m eqn:Hm. clear Hm.
+  remember (snd (eval_spec final0 K_edge t_edge)) as o eqn:Ho. clear Ho.
+  subst m o. discriminate E1.
+Qed.
+
+Example eval_edge_ok :
+  in_domain (t_wide gen.T14.STACK_SAFE_SUBS) = true /\
+  done_with (machine final0 K_edge (t_wide gen.T14.STACK_SAFE_SUBS)) (S gen.T14.STACK_SAFE_SUBS) (OReply []) = true.
+Proof. split; vm_compute; reflexivity. Qed.
+
+(* ---- a 3-level tree:  a [b [c 1] [d]] [e]  ; every command replies its own name followed by "!" ---- *)
+Definition final_name : list str -> finalres :=
+  fun strs => FinalRes (Some ([], [hd [] strs], tl strs)) false (SVal (Some (hd [] strs ++ [33]))).
+Definition t_three : list arg :=
+  [AStr [97]; ASub [AStr [98]; ASub [AStr [99]; AStr [49]]; ASub [AStr [100]]]; ASub [AStr [101]]].
+
+Example trace_three_levels :
+  map fst (trace final_name K_ok t_three) = [[1; 1]; [1; 2]; [1]; [2]; []]%nat /\
+  postorder t_three = [[1; 1]; [1; 2]; [1]; [2]; []]%nat /\
+  map (fun e => snd (fst e)) (calls_of final_name K_ok (trace final_name K_ok t_three)) = [[[99]]; [[100]]; [[98]]; [[101]]; [[97]]] /\
+  snd (trace_res final_name K_ok t_three) = SVal (Some [97; 33]) /\
+  machine final_name K_ok t_three =
+    Done [Call [] [[99]] [[49]] false; Call [] [[100]] [] false; Call [] [[98]] [[99; 33]; [100; 33]] false;
+          Call [] [[101]] [] false; Call [] [[97]] [[98; 33]; [101; 33]] false] (OReply [97; 33]).
+Proof. repeat split; vm_compute; reflexivity. Qed.
+
+(* a stop in the middle: d calls irc.error; the trace is the post-order prefix up to d *)
+Definition final_err_d : list str -> finalres :=
+  fun strs => if seq_eqb (hd [] strs) [100] then FinalRes (Some ([], [[100]], [])) false (SStop (OError [100]))
+              else final_name strs.
+Example trace_stops :
+  map fst (trace final_err_d K_ok t_three) = [[1; 1]; [1; 2]]%nat /\
+  snd (trace_res final_err_d K_ok t_three) = SStop (OError [100]).
+Proof. split; vm_compute; reflexivity. Qed.
